@@ -214,6 +214,22 @@ func faultRun(prop, tier string, c Case, w *Worker) (res Result) {
 			}
 			res.count("fault_points_db_locked", 1)
 		}
+		// the operating system refuses the drive in other ways: the path is a directory; the file is write-protected (immutable)
+		if rc.counts["openw"]+rc.counts["openr"] > 0 {
+			for _, mode := range []string{"isdir", "immutable"} {
+				what := fmt.Sprintf("drive %s during call %d", mode, ci)
+				ok, supported := fc.brokenDrive(rc.snap, rc.op, mode, what)
+				if !supported {
+					res.count("os_refusals_not_available_"+mode, 1)
+					continue
+				}
+				if !ok {
+					res.Detail = map[string]any{"cfg": cfg, "call": rc.op, "fault": "os-" + mode, "history": opsUpTo(hops, ci)}
+					return
+				}
+				res.count("fault_points_os_"+mode, 1)
+			}
+		}
 		// the drive cannot be opened at OS level for the duration of the call
 		if rc.counts["openw"]+rc.counts["openr"] > 0 {
 			what := fmt.Sprintf("drive directory missing during call %d", ci)
@@ -368,6 +384,49 @@ func (fc *faultCtx) oneFault(snap string, op Op, f *Fault, what string, breakDri
 	return fc.afterCall(rig, what, op)
 }
 
+// brokenDrive re-runs the call while the operating system refuses the drive in the given way, undoes that and checks C10's conclusion.
+func (fc *faultCtx) brokenDrive(snap string, op Op, mode, what string) (ok, supported bool) {
+	d := fc.w.NewDir("brk")
+	if err := CloneDir(snap, d, true); err != nil {
+		fc.res.Verdict, fc.res.Msg = "inconclusive", err.Error()
+		return false, true
+	}
+	rig, err := NewRig(d, fc.cfg)
+	if err != nil {
+		fc.res.Verdict, fc.res.Msg = "inconclusive", "rig: "+err.Error()
+		return false, true
+	}
+	defer rig.Close()
+	srcSeams = rig.Seams
+	if err := rig.Init(); err != nil {
+		fc.res.Verdict, fc.res.Msg = "inconclusive", "reopen snapshot: "+err.Error()
+		return false, true
+	}
+	rig.LocksSettled()
+	restore, err := rig.BreakDriveMode(mode)
+	if err != nil {
+		if err == errBreakUnsupported {
+			return true, false
+		}
+		fc.res.Verdict, fc.res.Msg = "inconclusive", "breaking the drive: "+err.Error()
+		return false, true
+	}
+	note("%s: %s", what, op)
+	out := execOp(rig, op)
+	rig.LocksSettled()
+	if err := restore(); err != nil {
+		fc.res.Verdict, fc.res.Msg = "inconclusive", "restoring the drive: "+err.Error()
+		return false, true
+	}
+	fc.res.count("fault_points_fired", 1)
+	if out.OK {
+		fc.res.count("calls_succeeding_despite_fault", 1)
+	} else {
+		fc.res.count("calls_failing_on_fault", 1)
+	}
+	return fc.afterCall(rig, what, op), true
+}
+
 // lockedDB re-runs the call while a second connection holds a lock on the index database, releases it and checks C10's conclusion.
 func (fc *faultCtx) lockedDB(snap string, op Op, mode, what string) bool {
 	d := fc.w.NewDir("dbl")
@@ -496,6 +555,6 @@ func rejectionRun(fc *faultCtx, c Case) (res Result) {
 func init() {
 	register(&Engine{Name: "faults", Props: []string{"C10"}, Cases: faultCases, Run: faultRun})
 	propMeta["C10"] = PropMeta{Level: "fault_enumeration",
-		Rule: "per case one generated history (fs-level and batched calls, then one handle driven through ReadAll / Seek / Write / Sync / WriteAt / Truncate / WriteString / Stat / Close and one Operations.Restore) is run fault-free while the seams count, per call, the drive writes, drive reads, index-store calls, write-cache calls, source reads and drive opens it reaches; then the call is re-run from a snapshot of the instance taken before it once for every k up to each count with exactly that event failing (error, and short write for drive writes; closing the drive writer/reader, the write-cache clean-up and the source's Close report an error after doing their work), once more per point as the first event of a PERSISTENT failure (from that event on every drive open / read / write / close - resp. every write-cache call, every source call, every index-store call - fails until the call returns), and once with the drive directory missing; once each with the index database's write lock resp. exclusive lock held by a second connection for the duration of the call (the real SQLite file refuses, not a wrapper) and released afterwards; finally construct + Initialize over the final tape, with the index absent (rebuild on open) and present, is re-run once per drive / index-store event it reaches, transient and persistent, followed by a second Initialize on the same instance; after each: the call returned, the process lives, no lock is held once the streaming goroutine has settled (lock hooks), the process has no descriptor on the drive file any more (/proc/self/fd, bounded wait), and a probe lookup + mutating call return; plus two cases of explicit precondition rejections; non-trivial = at least 20 fault points fired; distinct = distinct (configuration, history)",
+		Rule: "per case one generated history (fs-level and batched calls, then one handle driven through ReadAll / Seek / Write / Sync / WriteAt / Truncate / WriteString / Stat / Close and one Operations.Restore) is run fault-free while the seams count, per call, the drive writes, drive reads, index-store calls, write-cache calls, source reads and drive opens it reaches; then the call is re-run from a snapshot of the instance taken before it once for every k up to each count with exactly that event failing (error, and short write for drive writes; closing the drive writer/reader, the write-cache clean-up and the source's Close report an error after doing their work), once more per point as the first event of a PERSISTENT failure (from that event on every drive open / read / write / close - resp. every write-cache call, every source call, every index-store call - fails until the call returns), once with the drive directory missing, once with the drive path being a directory and once with the drive file write-protected by the immutable attribute (real EISDIR / EPERM from the operating system, not a wrapper); once each with the index database's write lock resp. exclusive lock held by a second connection for the duration of the call (the real SQLite file refuses, not a wrapper) and released afterwards; finally construct + Initialize over the final tape, with the index absent (rebuild on open) and present, is re-run once per drive / index-store event it reaches, transient and persistent, followed by a second Initialize on the same instance; after each: the call returned, the process lives, no lock is held once the streaming goroutine has settled (lock hooks), the process has no descriptor on the drive file any more (/proc/self/fd, bounded wait), and a probe lookup + mutating call return; plus two cases of explicit precondition rejections; non-trivial = at least 20 fault points fired; distinct = distinct (configuration, history)",
 		Assumptions: []string{"the state after a fault is not judged", "re-runs start from a reopened copy of the instance as it was before the call (index + tape), not from a replay of the whole history", "hang verdicts come from the no-progress watchdog classified by goroutine state"}}
 }
